@@ -14,6 +14,7 @@ import (
 	"sort"
 	"strconv"
 	"strings"
+	"sync"
 
 	"k8s.io/apimachinery/pkg/runtime"
 
@@ -417,13 +418,27 @@ func firstLines(s string, n int) string {
 type applyFn func(x *composite.Unstructured, d *composed.Unstructured) error
 
 type outcome struct {
-	err   error
-	perr  error
-	xr    map[string]any
-	cd    map[string]any
+	err  error
+	perr error
+	xr   map[string]any
+	cd   map[string]any
 }
 
-func execute(f applyFn, xr, cd map[string]any) outcome {
+// describeOnly (child started with C10_DESCRIBE) records the inputs of every call instead of
+// making it: the supervisor uses it to write out the input of a case that kills the process.
+var (
+	describeOnly bool
+	describedMu  sync.Mutex
+	described    []any
+)
+
+func execute(f applyFn, xr, cd map[string]any, desc any) outcome {
+	if describeOnly {
+		describedMu.Lock()
+		described = append(described, sanitize(map[string]any{"call": rawAsString(desc), "xr": xr, "cd": cd}))
+		describedMu.Unlock()
+		return outcome{xr: deepCopy(xr).(map[string]any), cd: deepCopy(cd).(map[string]any)}
+	}
 	x, d := newXR(xr), newCD(cd)
 	var o outcome
 	o.perr = kit.Try(func() { o.err = f(x, d) })
@@ -438,7 +453,9 @@ func errStr(err error) string {
 	return err.Error()
 }
 
-func runPatchCase(c sink, name string, r *rand.Rand, st stats) { runPatchCaseOpt(c, name, r, st, false) }
+func runPatchCase(c sink, name string, r *rand.Rand, st stats) {
+	runPatchCaseOpt(c, name, r, st, false)
+}
 
 // runStarCase is the same family biased towards one input class: the target holds a map with a
 // key named "*" and the target path is a wildcard over that map.
@@ -527,7 +544,9 @@ func runPatchCaseOpt(c sink, name string, r *rand.Rand, st stats, star bool) {
 				filtered = false
 			}
 		}
-		f = func(x *composite.Unstructured, d *composed.Unstructured) error { return xcomposite.Apply(pc.p, x, d, only...) }
+		f = func(x *composite.Unstructured, d *composed.Unstructured) error {
+			return xcomposite.Apply(pc.p, x, d, only...)
+		}
 	case x < 85:
 		entry = "ApplyToObjects"
 		f = func(x *composite.Unstructured, d *composed.Unstructured) error {
@@ -566,8 +585,8 @@ func runPatchCaseOpt(c sink, name string, r *rand.Rand, st stats, star bool) {
 		pc.pred = pFree
 	}
 
-	o1 := execute(f, xr, cd)
-	o2 := execute(f, xr, cd)
+	o1 := execute(f, xr, cd, pc.p)
+	o2 := execute(f, xr, cd, pc.p)
 
 	src0, dst0 := xr, cd
 	src1, dst1, dst2 := o1.xr, o1.cd, o2.cd
@@ -846,8 +865,8 @@ func runRenderCase(c sink, name string, r *rand.Rand, st stats) {
 			return xcomposite.RenderFromCompositePatches(d, x, patches)
 		}
 	}
-	o1 := execute(f, xr, cd)
-	o2 := execute(f, xr, cd)
+	o1 := execute(f, xr, cd, patches)
+	o2 := execute(f, xr, cd, patches)
 	src0, dst0, src1, dst1, dst2 := xr, cd, o1.xr, o1.cd, o2.cd
 	if toXR {
 		src0, dst0, src1, dst1, dst2 = cd, xr, o1.cd, o1.xr, o2.xr
